@@ -20,9 +20,14 @@ cp "$SD/demo.py" /verif/seeded/$NAME/demo.py
 [ -f "$SD/notes.md" ] && cp "$SD/notes.md" /verif/seeded/$NAME/notes.md
 # 3. run the check against the change in /repo
 cd /verif
-git -C /repo apply /verif/seeded/$NAME/patch.diff || { echo "patch does not apply to /repo"; exit 2; }
-./check $PID --tier $TIER > /tmp/seed_$NAME.check.log 2>&1; RC_CHECK=$?
-git -C /repo checkout -- .
+if [ "${SEED_VIA_WORKTREE:-0}" = 1 ]; then
+  # /repo is busy (a thorough run reads it): point the check at the worktree's source instead of patching /repo
+  PYTHONPATH="$WT/src" ./check $PID --tier $TIER > /tmp/seed_$NAME.check.log 2>&1; RC_CHECK=$?
+else
+  git -C /repo apply /verif/seeded/$NAME/patch.diff || { echo "patch does not apply to /repo"; exit 2; }
+  ./check $PID --tier $TIER > /tmp/seed_$NAME.check.log 2>&1; RC_CHECK=$?
+  git -C /repo checkout -- .
+fi
 echo "check $PID ($TIER) rc=$RC_CHECK"; grep -c "^VIOLATION" /tmp/seed_$NAME.check.log; grep "^VIOLATION" -A1 /tmp/seed_$NAME.check.log | head -6 | cut -c1-300; tail -1 /tmp/seed_$NAME.check.log | cut -c1-250
 python3 - <<PY
 import json
